@@ -5,10 +5,10 @@ LEVEL = "model_checking"
 MANIFEST = {
     "engine": "tlc Repo rule table + vh repo C29",
     "technique": "explicit TLA+ three-tree specification (Repo.tla) enumerated exhaustively by TLC over bounded universes; every row is materialised as a real repository and worktree, the go-git operation is run and the projected post-state compared with the specification's allowed outcome",
-    "text": "whenever one of the porcelain operations (checkout and reset in every mode, add, remove, move, clean, commit, pull by fast-forward, resets to HEAD itself, and 9 calls that must be refused outright: invalid sparse directories, missing commit, missing branch, branch name taken, branch and hash together) returns an error, HEAD, both branches, the index (entries and flags) and every tracked worktree file are exactly as before the call. Universes: one path with regular/executable/symlink entries (all 625 H/I/W/T combinations), a directory/file conflict pair, two independent paths.",
+    "text": "whenever one of the porcelain operations (checkout and reset in every mode, add, remove, move, clean, commit, pull by fast-forward, reference-only fast-forward merge, resets to HEAD itself, and 11 calls that must be refused outright: merge of a branch that does not descend from HEAD, unsupported merge strategy, invalid sparse directories, missing commit, missing branch, branch name taken, branch and hash together) returns an error, HEAD, both branches, the index (entries and flags) and every tracked worktree file are exactly as before the call. Universes: one path with regular/executable/symlink entries (all 625 H/I/W/T combinations), a directory/file conflict pair, two independent paths.",
     "note": "Bounded universes (<= 2 paths, 2 blob contents); submodules, sparse cones (C32) and linked worktrees (C33) are separate; the git leg is sampled within the process budget.",
 }
-ALL = ["pull", "reset-merge-head", "reset-keep-head", "reset-hard-badsparse", "reset-merge-badsparse", "reset-keep-badsparse", "reset-mixed-badsparse",
+ALL = ["pull", "merge-ff", "merge-nonff", "merge-unsupported", "reset-merge-head", "reset-keep-head", "reset-hard-badsparse", "reset-merge-badsparse", "reset-keep-badsparse", "reset-mixed-badsparse",
        "reset-hard-missing", "checkout-create-existing", "checkout-missing-branch", "checkout-branch-and-hash", "checkout-force-missing-hash",
        "reset-hard", "checkout-force", "checkout-force-create", "checkout", "checkout-twin", "checkout-create", "reset-merge", "reset-keep", "add", "add-all", "remove", "move", "clean", "commit"]
 
